@@ -172,6 +172,15 @@ func (m *Machine) kvCommit(t *kvTxn) Value {
 			return m.badgerErr("ErrConflict")
 		}
 	}
+	// conflict storm (verifapi.KVStorm(N)): writers the path does not contain - other
+	// requests being served - may have committed to a key this transaction read, up to N times per
+	// path. Sound as an abstraction of "any number of concurrent writers": ErrConflict says exactly
+	// that, and the transaction is not applied.
+	if len(t.reads) > 0 && m.stormLeft() > 0 && m.choose(2, "storm") == 1 {
+		m.stormUsed++
+		m.kvConflicts++
+		return m.badgerErr("ErrConflict")
+	}
 	t.db.commitTs++
 	t.db.commits++
 	for key, w := range t.writes {
@@ -646,4 +655,16 @@ func reflTypeOf(v Value) types.Type {
 		panic(abortf("foreign reflect.Type %s", describe(v)))
 	}
 	return rt.t
+}
+
+func (m *Machine) stormLeft() int { return m.stormBudget - m.stormUsed }
+
+func init() {
+	// verifapi.KVStorm(n): from now on up to n commits of read-write transactions may fail with
+	// ErrConflict although the path itself contains no conflicting writer
+	regV(apiPkg+".KVStorm", func(m *Machine, g *Goroutine, a []Value) Value {
+		m.stormBudget = int(cint(a[0], "KVStorm"))
+		m.stormUsed = 0
+		return nil
+	})
 }
